@@ -550,6 +550,9 @@ func runRetry(e *Env) {
 				// orders two timers that tie on the fake clock)
 				pl.specDelay = []time.Duration{10*time.Millisecond + 7*time.Microsecond, 50*time.Millisecond + 11*time.Microsecond,
 					200*time.Millisecond + 13*time.Microsecond, time.Second + 17*time.Microsecond}[tp.Next(4)]
+				if tp.Chance(1, 10) {
+					pl.specDelay = 0 // "any delay": speculative executions start at once
+				}
 			}
 			// host order: a tape-chosen permutation of the nodes
 			rest := append([]string(nil), addrs...)
